@@ -83,17 +83,15 @@ PROPS = {
     "C10": {
         "engines": [("c10", "main")],
         "lean": ["PgsVerif.Props.C10"],
-        "category": "exploration",
         "rule": "exhaustive artifact sequences up to length 4 (5 thorough) over {file a, overwriting file a, file b, file ./a, append a, append b, append d/../a, injection a, error}; seeded random sequences up to 30 with template twins, illegal names, unknown artifacts, custom files and post-processor stacks of 0-3 matching/non-matching/failing processors; driven through Init(...).RegisterModule(...).Render() in a crash-isolated worker (a fail-stop is an observation); non-trivial = at least 2 artifacts",
-        "level_text": "THEOREMS PENDING (level exploration until proved): executable Lean transcription of Persist/indexOfFile/tailOfFile/insertFile/insertAppend/postProcess compared with the real persister; Phi_C10 = (protoc's reading `interp` of the observed response) = (abstract `meaning` of the artifact list), evaluated on every observed response. Planned theorem: interp (persist arts).files = (meaning arts).entries for all artifact lists and processor stacks (refinement through entry blocks).",
+        "level_text": "Refinement theorem C10_refines for ALL artifact sequences and ALL post-processor stacks: the transcription of Persist / indexOfFile / tailOfFile / insertFile / insertAppend / postProcess over the flat chunk list fails exactly when the abstract semantics `meaning` fails (same cause) and otherwise protoc's reading of the response (`interp`: a nameless chunk continues the preceding entry, an injection never absorbs one) is exactly the entries the artifacts mean, errors joined with '; ' (proof: the flat list is the concatenation of entry blocks; each operation commutes with that abstraction). C10_judge: Phi never fires on the model. Corollaries for templates and processor order.",
         "level_note": "Trusted: proto.Marshal/Unmarshal (responses compared after decoding); templates and post-processors are modelled by their input/output behaviour (rendered text or failure; suffix-appending or failing processors).",
     },
     "C12": {
         "engines": [("c12", "main")],
         "lean": ["PgsVerif.Props.C12"],
-        "category": "exploration",
         "rule": "exhaustive custom-artifact sequences up to length 4 (5 thorough) over {a, a overwrite, d/a, d/./a, d/e/../a overwrite, /abs/a, d/b overwrite} x permission bits x subsets of 4 pre-existing files on afero.MemMapFs; seeded random runs mixing custom templates, generator files, errors and post-processors; every path of the run and all its parents probed afterwards (kind, content, mode); non-trivial = at least 2 artifacts",
-        "level_text": "THEOREMS PENDING (level exploration until proved): executable Lean model of writeFile over a finite-map file system compared with the real persister on MemMapFs; Phi_C12 = per-path declarative rule (first writer wins unless overwrite; creator's mode; post-processed content; parents exist; response unaffected) evaluated on every observed file system.",
+        "level_text": "Theorems for ALL initial file systems, artifact lists and processor stacks: C12_files (after a non-failing run every path holds exactly what the per-path rule says: first writer wins unless overwrite, only the content is replaced on overwrite, creator's permission bits, post-processed content), C12_response (the response equals that of the run with the custom artifacts removed), C12_parent_created. Hypothesis noDirClash (no artifact path is a directory at the moment it is written) - such conflicts are fail-stop on a real file system and belong to C14.",
         "level_note": "Trusted: afero MemMapFs semantics as modelled (normalizePath, create-or-truncate, chmod only on create, MkdirAll of all ancestors); domain excludes file/directory prefix conflicts (fail-stop on a real file system, C14's territory).",
     },
     "C13": {
